@@ -44,7 +44,9 @@ META = dict(
               'vs array, draws per rejected slot); denotation of the operator '
               'overloads; CFG raising paths of the constructors'
               '; truth table of updated() over its guard atoms (declared bounds are k'
-              'ept in every row)',
+              'ept in every row); the value handed to a transformation per element is '
+              'a draw of that element or the table entry keyed by its id; constants '
+              'are repeated whole',
     level_text='Static, for every prior class and every parameter value at once: '
                'decides R1-R7.  R2/R3/R5 are proofs of the stated identities '
                '(as rational-function / log identities); R1/R4 decide that no '
